@@ -18,49 +18,58 @@ mixed mk(string vk) {
   return 0;
 }
 int hold_local(mixed v, int r) { mixed mine = v; if (r > 1) return hold_local(v, r - 1) + 1; return sizeof(({ mine })); }
+// holder arrays are chunked: an LPC array holds at most 65535 elements (16-bit size field)
+#define CH 30000
+mixed *mkh(int r) {
+  int n = (r + CH - 1) / CH, i; mixed *h = allocate(n);
+  for (i = 0; i < n; i++) h[i] = allocate(i < n - 1 ? CH : r - CH * (n - 1));
+  return h;
+}
+#define H(i) h[(i) / CH][(i) % CH]
 int run(string vk, int r, string hk, int ord) {
   mixed v = mk(vk);
-  mixed h; int i; mixed *hs;
+  mixed *h; mapping m; int i;
   switch (hk) {
     case "array":
-      h = allocate(r);
-      for (i = 0; i < r; i++) h[i] = v;
-      if (ord == 0) for (i = 0; i < r; i++) h[i] = 0;
-      else if (ord == 1) for (i = r - 1; i >= 0; i--) h[i] = 0;
+      h = mkh(r);
+      for (i = 0; i < r; i++) H(i) = v;
+      if (ord == 0) for (i = 0; i < r; i++) H(i) = 0;
+      else if (ord == 1) for (i = r - 1; i >= 0; i--) H(i) = 0;
       h = 0;
       break;
     case "mapping":
-      h = allocate_mapping(r);
-      for (i = 0; i < r; i++) h[i] = v;
-      if (ord == 0) for (i = 0; i < r; i++) map_delete(h, i);
-      else if (ord == 1) for (i = r - 1; i >= 0; i--) map_delete(h, i);
-      h = 0;
+      m = allocate_mapping(r);
+      for (i = 0; i < r; i++) m[i] = v;
+      if (ord == 0) for (i = 0; i < r; i++) map_delete(m, i);
+      else if (ord == 1) for (i = r - 1; i >= 0; i--) map_delete(m, i);
+      m = 0;
       break;
     case "locals":
       hold_local(v, r);
       break;
     case "globals":
-      hs = allocate(r);
-      for (i = 0; i < r; i++) { hs[i] = new("/c06/g"); hs[i]->set(v); }
-      if (ord == 0) for (i = 0; i < r; i++) hs[i]->set(0);
-      else if (ord == 1) for (i = r - 1; i >= 0; i--) hs[i]->set(0);
-      for (i = 0; i < r; i++) hs[i]->dest();
+      h = mkh(r);
+      for (i = 0; i < r; i++) { H(i) = new("/c06/g"); H(i)->set(v); }
+      if (ord == 0) for (i = 0; i < r; i++) H(i)->set(0);
+      else if (ord == 1) for (i = r - 1; i >= 0; i--) H(i)->set(0);
+      for (i = 0; i < r; i++) H(i)->dest();
       break;
     case "funptr_args":
-      hs = allocate(r);
-      for (i = 0; i < r; i++) hs[i] = (: cbf, v :);
-      if (ord == 0) for (i = 0; i < r; i++) hs[i] = 0;
-      else if (ord == 1) for (i = r - 1; i >= 0; i--) hs[i] = 0;
-      hs = 0;
+      h = mkh(r);
+      for (i = 0; i < r; i++) H(i) = (: cbf, v :);
+      if (ord == 0) for (i = 0; i < r; i++) H(i) = 0;
+      else if (ord == 1) for (i = r - 1; i >= 0; i--) H(i) = 0;
+      h = 0;
       break;
     case "call_out":
-      hs = allocate(r);
-      for (i = 0; i < r; i++) hs[i] = call_out("cbf", 20, v);
-      if (ord == 0) for (i = 0; i < r; i++) remove_call_out(hs[i]);
-      else if (ord == 1) for (i = r - 1; i >= 0; i--) remove_call_out(hs[i]);
+      h = mkh(r);
+      for (i = 0; i < r; i++) H(i) = call_out("cbf", 1 + i % 30, v);
+      if (ord == 0) for (i = 0; i < r; i++) remove_call_out(H(i));
+      else if (ord == 1) for (i = r - 1; i >= 0; i--) remove_call_out(H(i));
       // ord 2: they fire (the harness advances the clock during clean-up)
       break;
     case "add_action":
+      enable_commands();
       for (i = 0; i < r; i++) add_action("cbv", "v" + i, 0, v);
       if (ord == 0) for (i = 0; i < r; i++) remove_action("cbv", "v" + i);
       else if (ord == 1) for (i = r - 1; i >= 0; i--) remove_action("cbv", "v" + i);
@@ -72,10 +81,10 @@ int run(string vk, int r, string hk, int ord) {
 }
 // r clones of one blueprint (program reference count), destructed in order ord
 int clones(int r, int ord) {
-  object *c = allocate(r); int i;
-  for (i = 0; i < r; i++) c[i] = new("/c06/v");
-  if (ord == 0) for (i = 0; i < r; i++) c[i]->dest();
-  else for (i = r - 1; i >= 0; i--) c[i]->dest();
+  mixed *h = mkh(r); int i;
+  for (i = 0; i < r; i++) H(i) = new("/c06/v");
+  if (ord == 0) for (i = 0; i < r; i++) H(i)->dest();
+  else for (i = r - 1; i >= 0; i--) H(i)->dest();
   return r;
 }
 // cyclic containers: not collected by a reference-counting VM (by design); only memory safety is checked
@@ -92,7 +101,7 @@ int outlive(int kind) {
   object x = new("/c06/x"); mixed v = mk("array"); mixed e;
   if (kind == 0) { fs = x->arm(v); x->dest(); }
   else if (kind == 1) { fs = x->arm(v); x->dest(); e = catch(evaluate(fs[0])); e = catch(evaluate(fs[1])); e = catch(evaluate(fs[2], 1)); fs = 0; }
-  else if (kind == 2) { x->arm_actions(v); x->dest(); command("xv 1"); command("xf 2"); }
+  else if (kind == 2) { enable_commands(); x->arm_actions(v); x->dest(); command("xv 1"); command("xf 2"); }
   else { fs = x->arm(v); gkeep = fs; fs = 0; x->dest(); gkeep = 0; }
   return kind;
 }
